@@ -211,6 +211,115 @@ def writer_exposure(ck):
         ad.cache_cleanup()
 
 
+def _scheduled_child(ad, key, d, sync, tag, pause_at):
+    """forked child: np.save emits its normal bytes in three write() calls (header, first half, rest) and waits for the
+    coordinator after the piece `pause_at`; then one call of the adapter; result pickled to <sync>/<tag>.out"""
+    import io
+    import pickle
+    import time
+    pid = os.fork()
+    if pid:
+        return pid
+    code = 0
+    try:
+        real = np.save
+        paused = []
+
+        def checkpoint(name):
+            if name != pause_at or paused:
+                return
+            paused.append(name)
+            open(os.path.join(sync, tag + ".reached"), "w").close()
+            t0 = time.time()
+            while not os.path.exists(os.path.join(sync, tag + ".go")) and time.time() - t0 < 60:
+                time.sleep(0.005)
+
+        def slow(file, arr, *a, **k):
+            buf = io.BytesIO()
+            real(buf, arr, *a, **k)
+            data = buf.getvalue()
+            hl = 10 + int.from_bytes(data[8:10], "little")
+            mid = hl + (len(data) - hl) // 2
+            fh = open(file, "wb") if isinstance(file, (str, bytes, os.PathLike)) else file
+            for name, piece in (("header", data[:hl]), ("half", data[hl:mid]), ("rest", data[mid:])):
+                fh.write(piece)
+                fh.flush()
+                checkpoint(name)
+            if fh is not file:
+                fh.close()
+        if pause_at:
+            np.save = slow
+        ad.cache_cleanup()
+        try:
+            out, res = ad.call(key, d)
+        except BaseException as e:      # noqa
+            out, res = "raised", repr(e)
+        with open(os.path.join(sync, tag + ".out"), "wb") as f:
+            pickle.dump((out, res), f)
+    except BaseException:               # noqa
+        code = 1
+    finally:
+        os._exit(code)
+
+
+def scheduled_writers(ck, tier):
+    """deterministic three-process schedule on an empty shared directory (what the random races only hit by luck):
+         W1 writes header + half of its data, is descheduled | W2 opens its output and writes the header, is descheduled |
+         W1 finishes and publishes | R reads | W2 finishes | R2 reads
+       every process that returns must return the numbers of a pristine process without a basis directory"""
+    import pickle
+    import time
+
+    def wait(path, timeout):
+        t0 = time.time()
+        while not os.path.exists(path) and time.time() - t0 < timeout:
+            time.sleep(0.005)
+        return os.path.exists(path)
+
+    def reap(pid):
+        try:
+            os.waitpid(pid, 0)
+        except ChildProcessError:
+            pass
+    for ad in ADAPTERS:
+        big = max(ad.lattice, key=lambda k: k[0] if ad.name != "dasch" else k[1])
+        key = {"dasch": (big[0], 60), "daun": (60, 1), "basex": (40, 1), "linbasex": (41,) + tuple(big[1:]), "rbasex": (40, 2, 0, 1)}[ad.name]
+        d = tempfile.mkdtemp(prefix="sched_", dir=os.environ.get("VERIF_SCRATCH"))
+        sync = tempfile.mkdtemp(prefix="sync_", dir=os.environ.get("VERIF_SCRATCH"))
+        ck.count(("S.schedule", ad.name), suite="S.scheduled-writers")
+        ad.cache_cleanup()
+        want = ad.fresh(key)
+        w1 = _scheduled_child(ad, key, d, sync, "W1", "half")
+        got1 = wait(os.path.join(sync, "W1.reached"), 40)
+        w2 = _scheduled_child(ad, key, d, sync, "W2", "header") if got1 else None
+        if w2:
+            wait(os.path.join(sync, "W2.reached"), 15)
+        open(os.path.join(sync, "W1.go"), "w").close()
+        reap(w1)
+        r = _scheduled_child(ad, key, d, sync, "R", None)
+        reap(r)
+        open(os.path.join(sync, "W2.go"), "w").close()
+        if w2:
+            reap(w2)
+        r2 = _scheduled_child(ad, key, d, sync, "R2", None)
+        reap(r2)
+        for tag in ("W1", "W2", "R", "R2"):
+            f = os.path.join(sync, tag + ".out")
+            if not os.path.exists(f):
+                continue
+            out, res = pickle.load(open(f, "rb"))
+            if out == "ok" and not c07.same_result(res, want):
+                ck.violation(dict(site=ad.name, clause="scheduled-writers"),
+                             dict(module=ad.name, key=list(key), process=tag,
+                                  schedule=["W1: header + first half written", "W2: output opened, header written", "W1: rest written, published",
+                                            "R: reads", "W2: finishes", "R2: reads"]),
+                             f"{ad.name}: process {tag} of the two-writers/one-reader schedule returned numbers that differ from the "
+                             f"result without a basis directory")
+        ad.cache_cleanup()
+    if not got1:
+        ck.notes.append("scheduled_writers: a writer never reached its pause point (no disk save?)")
+
+
 def _race_worker(args):
     modname, d, seedv, pristine = args
     import abel
@@ -264,7 +373,7 @@ def run(tier):
                       "K.faults: cache histories with damage/removal (as C07) ; S: truncated file -> call -> repeat -> remove -> "
                       "call for every method at header/chunk boundaries and random offsets; 150 (thorough 800) transform-level "
                       "operations per module with files truncated / replaced by garbage / emptied / removed in between; "
-                      "np.save exposure spy + constructed two-writer hole state; 4-process races on an empty shared directory. "
+                      "np.save exposure spy + constructed two-writer hole state; deterministic W1/W2/R/R2 schedule with np.save split into three writes (every module); 4-process races on an empty shared directory. "
                       "distinct = (suite, module, kind/offset class)")
     ck.cov["trusted_base"] = ["Lean 4.33 kernel", "axioms propext/Classical.choice/Quot.sound",
                               "Model/Npy.lean tied to numpy.load by K.npy (verdict class on every prefix of real files)",
@@ -286,6 +395,7 @@ def run(tier):
     c07.oracle_transform(ck, tier, deep or bool(ck.broken), faults=True, suite="S.fault-histories",
                          prop_clause="damaged-file-changes-result")
     writer_exposure(ck)
+    scheduled_writers(ck, tier)
     races(ck, tier)
     return ck.finish()
 
